@@ -74,6 +74,7 @@ def generate(seed, tier, index):
         # and its class-level name while the scenario describes something else)
         specs.insert(1, G.clone_as_second_instance(specs[0], "DEV1"))
     nclients = rng.choice([1, 1, 2])
+    tty = rng.random() < 0.3
     steps = [{"op": "start_client", "c": c} for c in range(nclients)]
     all_vecs = [(sp["name"], g["name"], v) for sp in specs for g in G.effective_groups(sp).values() for v in g["vectors"].values()]
     revealed = set()  # (device, vector, element) hidden by definition, shown by the driver at run time
@@ -133,6 +134,11 @@ def generate(seed, tier, index):
                 big_ = max(pairs, key=lambda p: len(p[1]["blob_hex"]))
                 big_[1]["blob_hex"] = big_[1]["blob_hex"][: (len(big_[1]["blob_hex"]) // 4) * 2]
         step = {"op": "write", "c": rng.randrange(nclients), "dev": d, "vec": v["name"], "els": pairs}
+        if tty and v["kind"] == "Text" and rng.random() < 0.6:
+            step["via"] = "tty"
+            for p_ in pairs:
+                if rng.random() < 0.5:
+                    p_[1] = rng.choice(["para one\n\npara two", "a\n   \nb", "first\nsecond", "x\n\n\ny"])
         if v["kind"] in ("Switch", "Text") and len(els) >= 2 and rng.random() < 0.3:
             # a second submit on the same property by the same client, issued before the answer to the first can have arrived
             e2 = rng.choice(els)
@@ -149,11 +155,14 @@ def generate(seed, tier, index):
                 else:
                     pairs2.append([e["name"], V.rand_text(rng, maxlen=12), None])
             step["twin"] = {"dev": "DEV1" if d == "DEV0" else "DEV0", "els": pairs2, "gap": rng.choice([0, 0, 1, 2])}
+        if step.get("via") == "tty":
+            step.pop("then", None)
+            step.pop("twin", None)
         steps.append(step)
     net = {"latency": rng.choice(["zero", "lan", "slow", "bursty", "skew"]),
            "frag": rng.choice(["whole", "fixed:1", "fixed:7", "fixed:64", "random", "random", "coalesce"]),
            "hwm": rng.choice([0, 64, 65536])}
-    return {"devices": specs, "nclients": nclients, "steps": steps, "net": net, "seed": rng.randrange(1 << 30)}
+    return {"devices": specs, "nclients": nclients, "steps": steps, "net": net, "seed": rng.randrange(1 << 30), "tty": tty}
 
 
 def snapshot(stack):
@@ -186,7 +195,7 @@ def execute(scen):
     reached = 0
     sigparts = set()
     with Sim(scen["seed"], cfg, PoolConfig()) as sim:
-        stack = Stack(sim, scen["devices"])
+        stack = Stack(sim, scen["devices"], with_tty=bool(scen.get("tty")))
         for _ in range(scen["nclients"]):
             stack.add_client(start=False)
         for st in scen["steps"]:
@@ -204,8 +213,19 @@ def execute(scen):
             before = snapshot(stack)
             vec, vspec = stack.vec_obj(st["dev"], st["vec"])
             nrouted = len(stack.router_log)
-            res = apply_step(stack, {"op": "c_write", "c": st["c"], "dev": st["dev"], "vec": st["vec"],
-                                     "els": [[n, v] for n, v, _ in st["els"]]})
+            if st.get("via") == "tty":
+                # the write arrives on the line-oriented TTY channel (a peer driving the drivers through stdin), spelled by the
+                # harness; a multi-line value is several input lines, some of them possibly blank
+                from xml.sax.saxutils import escape, quoteattr
+                kids = "".join(f"<oneText name={quoteattr(n)}>{escape(v or '')}</oneText>" for n, v, _ in st["els"])
+                xml = f"<newTextVector device={quoteattr(st['dev'])} name={quoteattr(st['vec'])}>{kids}</newTextVector>\n"
+                stack.stdin_file.feed(xml)
+                probes["write_over_the_tty_channel"] = probes.get("write_over_the_tty_channel", 0) + 1
+                from ..worlds.ops import OpResult
+                res = OpResult(True)
+            else:
+                res = apply_step(stack, {"op": "c_write", "c": st["c"], "dev": st["dev"], "vec": st["vec"],
+                                         "els": [[n, v] for n, v, _ in st["els"]]})
             kind = vspec["kind"]
             if st.get("then") and not res.skipped and not res.error:
                 if st.get("then_gap"):
@@ -308,6 +328,8 @@ def execute(scen):
                     break
             if viol:
                 break
+            if st.get("via") == "tty":
+                continue  # (the TTY peer keeps no mirror to compare)
             # the client's own view
             node = stack.clients[st["c"] % len(stack.clients)]
             v2 = []
